@@ -483,3 +483,62 @@ package node
 //@   loop 1 decreases selLen(r.Selection)
 //@   ensures open == old(open) - chain(sel, bubble)
 //@   ensures failed && !old(failed) ==> result != nil
+
+// ---- C12/C03/C04/C08/C18: selections and the editor ---------------------------------------------------------
+//@ macro wfS(s *Selection) bool = s != nil && s.Node != nil && s.Constraints != nil && s.Browser != nil && s.Browser.Triggers != nil && s.Path != nil && s.Path.Meta != nil
+
+// what every step of an edit guarantees to the nodes involved:
+//   the begin/end balance is unchanged, a node error surfaces as an error, nothing is written after a failure
+//@ macro stepOK(err error) bool = open == old(open) && ((failed && !old(failed)) ==> err != nil) && (!old(failed) ==> writesAfterFail == old(writesAfterFail))
+
+// constraint checks do not talk to nodes (trusted abstraction of the registered constraint objects);
+// nonNavChecks counts constraint consultations for requests that are not pure navigation
+//@ ghost var nonNavChecks int
+//@ func (self *Constraints) CheckContainerPreConstraints(r *ChildRequest) (bool, error)
+//@   trusted
+//@   assigns self.compiled, r.Path, nonNavChecks
+//@   ensures nonNavChecks == old(nonNavChecks) + (r.Target == nil ? 1 : 0)
+//@ func (self *Constraints) CheckContainerPostConstraints(r ChildRequest, child *Selection) (bool, error)
+//@   trusted
+//@   assigns self.compiled, nonNavChecks
+//@   ensures nonNavChecks == old(nonNavChecks) + (r.Target == nil ? 1 : 0)
+//@ func (self *Constraints) CheckListPreConstraints(r *ListRequest) (bool, error)
+//@   trusted
+//@   assigns self.compiled, r.StartRow64, r.StartRow, r.Row64, r.Row, nonNavChecks
+//@   ensures nonNavChecks == old(nonNavChecks) + (r.Target == nil ? 1 : 0)
+//@ func (self *Constraints) CheckListPostConstraints(r ListRequest, child *Selection, key []val.Value) (bool, bool, error)
+//@   trusted
+//@   assigns self.compiled, nonNavChecks
+//@   ensures nonNavChecks == old(nonNavChecks) + (r.Target == nil ? 1 : 0)
+//@ func (self *Constraints) ContextConstraint(s *Selection) context.Context
+//@   trusted
+//@   assigns self.compiled
+
+//@ func (sel *Selection) Release()
+//@   mode int
+//@   property C12
+//@   requires sel != nil
+//@   assigns nothing
+
+// selecting a child: one Child request to the node; a nil child or an error yields no selection
+//@ func (sel *Selection) selekt(r *ChildRequest) (*Selection, error)
+//@   mode int
+//@   property C12 C03 C08
+//@   requires wfS(sel) && r != nil && r.Meta != nil
+//@   ensures stepOK(result1)
+//@   ensures nodeWrites == old(nodeWrites) || (nodeWrites == old(nodeWrites) + 1 && (r.New || r.Delete))
+//@   ensures r.New == old(r.New) && r.Delete == old(r.Delete) && r.Target == old(r.Target)
+//@   ensures result0 != nil ==> result1 == nil && wfS(result0) && result0.parent == sel && result0.Browser == sel.Browser && result0.Constraints == sel.Constraints && !result0.InsideList
+//@   ensures result0 != nil ==> fresh(result0)
+
+//@ func (sel *Selection) selectListItem(r *ListRequest) (*Selection, bool, []val.Value, error)
+//@   mode int
+//@   property C12 C03 C04 C08
+//@   requires wfS(sel) && r != nil && r.Selection != nil && r.Selection.Path != nil
+//@   ensures stepOK(result3)
+//@   ensures nodeWrites == old(nodeWrites) || (nodeWrites == old(nodeWrites) + 1 && (r.New || r.Delete))
+//@   ensures r.New == old(r.New) && r.Delete == old(r.Delete) && r.Target == old(r.Target) && r.First == old(r.First)
+//@   ensures result0 != nil ==> result3 == nil && result0.parent == sel && result0.Browser == sel.Browser && result0.Constraints == sel.Constraints && result0.InsideList
+//@   ensures result0 != nil ==> result0.Node != nil && result0.Path != nil
+//@   ensures result0 != nil ==> result0.Path.Meta != nil
+//@   ensures result0 != nil ==> fresh(result0)
